@@ -223,6 +223,13 @@ Proof.
   revert m2. induction m1 as [|(k & v) r IH]; intros [|(k' & v') r']; cbn; try discriminate; [reflexivity|].
   intros [= -> Hv Hr]. apply Hf in Hv. subst. f_equal. apply IH; exact Hr.
 Qed.
+Lemma mapv_inj_in (f : A -> B) m1 m2 :
+  (forall k x y, In (k, x) m1 -> In (k, y) m2 -> f x = f y -> x = y) -> mapv f m1 = mapv f m2 -> m1 = m2.
+Proof.
+  revert m2. induction m1 as [|(k & v) r IH]; intros [|(k' & v') r'] Hf; cbn; try discriminate; [reflexivity|].
+  intros [= -> Hv Hr]. apply (Hf k' v v' (or_introl eq_refl) (or_introl eq_refl)) in Hv. subst. f_equal.
+  apply IH; [|exact Hr]. intros k0 x y Hx Hy. apply (Hf k0 x y); right; assumption.
+Qed.
 End Plumbing.
 
 Definition shift {A} (n : N) (m : list (N * A)) : list (N * A) := map (fun kv => (fst kv + n, snd kv)) m.
@@ -240,6 +247,21 @@ Proof.
 Qed.
 Lemma sorted_opt_app {A} k0 (o : option A) l : sorted l -> (forall k v, In (k, v) l -> k0 < k) -> sorted (opt k0 o ++ l).
 Proof. intros Hs Hlb. destruct o; cbn; [constructor; assumption|exact Hs]. Qed.
+Lemma opt_app_inj {A} k0 (o o' : option A) (l l' : list (N * A)) :
+  (forall k v, In (k, v) l -> k0 < k) -> (forall k v, In (k, v) l' -> k0 < k) ->
+  opt k0 o ++ l = opt k0 o' ++ l' -> o = o' /\ l = l'.
+Proof.
+  intros Hl Hl'. destruct o, o'; cbn; intros E.
+  - injection E as -> ->. auto.
+  - exfalso. assert (In (k0, a) l') by (rewrite <- E; left; reflexivity). apply Hl' in H. lia.
+  - exfalso. assert (In (k0, a) l) by (rewrite E; left; reflexivity). apply Hl in H. lia.
+  - auto.
+Qed.
+Lemma shift_inj {A} n (a b : list (N * A)) : shift n a = shift n b -> a = b.
+Proof.
+  revert b. induction a as [|(k & v) r IH]; intros [|(k' & v') r']; cbn; try discriminate; [reflexivity|].
+  intros [= Hk -> Hr]. assert (k = k') by lia. subst. f_equal. apply IH; exact Hr.
+Qed.
 Lemma in_opt {A} k0 (o : option A) k v : In (k, v) (opt k0 o) -> k = k0 /\ o = Some v.
 Proof. destruct o; cbn; [intros [[= <- <-]|[]]; auto|intros []]. Qed.
 
@@ -412,6 +434,69 @@ Proof.
     + intros k v Hin. unfold slist in Hin. apply in_app_or in Hin. destruct Hin as [Hin|Hin].
       { apply in_opt in Hin. destruct Hin as [_ Hin]. destruct (st_prel t); [injection Hin as <-; apply (f_prel CD)|discriminate]. }
       apply in_shift in Hin. destruct Hin as (k0 & Hin & _). apply in_mapv in Hin. destruct Hin as (x & _ & ->). apply (f_rec CD).
+  - (* equal account roots, equal account tries *)
+    intros t1 t2 S1 S2 E. unfold aroot, menc in E. cbn [MptWorld root_acct enc_acct] in E.
+    change (mroot (mapv enc_acct' t1) = mroot (mapv enc_acct' t2)) in E.
+    apply mroot_inj in E; try (apply sorted_mapv; assumption); try (apply vals_ok_mapv, (f_acct CD)).
+    apply (mapv_inj enc_acct') in E; [exact E|].
+    intros x y Hxy. pose proof (c_acct CD x) as A. rewrite Hxy, (c_acct CD) in A. injection A as ->. reflexivity.
+  - (* validator trie *)
+    intros t1 t2 [S1 N1] [S2 N2] E. unfold vroot, menc in E.
+    cbn [MptWorld root_val enc_val enc_idx enc_stat enc_queue] in E.
+    change (mroot (vlist (mapv enc_val' (vt_info t1)) (option_map enc_idx' (vt_index t1)) (option_map enc_stat' (vt_stat t1))
+                         (option_map enc_queue' (vt_queue t1))) =
+            mroot (vlist (mapv enc_val' (vt_info t2)) (option_map enc_idx' (vt_index t2)) (option_map enc_stat' (vt_stat t2))
+                         (option_map enc_queue' (vt_queue t2)))) in E.
+    assert (Hvok : forall t : vtrie, vals_ok (vlist (mapv enc_val' (vt_info t)) (option_map enc_idx' (vt_index t))
+                                               (option_map enc_stat' (vt_stat t)) (option_map enc_queue' (vt_queue t)))).
+    { intros t k v Hin. unfold vlist in Hin.
+      apply in_app_or in Hin. destruct Hin as [Hin|Hin].
+      { apply in_opt in Hin. destruct Hin as [_ Hin]. destruct (vt_index t); [injection Hin as <-; apply (f_idx CD)|discriminate]. }
+      apply in_app_or in Hin. destruct Hin as [Hin|Hin].
+      { apply in_opt in Hin. destruct Hin as [_ Hin]. destruct (vt_stat t); [injection Hin as <-; apply (f_stat CD)|discriminate]. }
+      apply in_app_or in Hin. destruct Hin as [Hin|Hin].
+      { apply in_opt in Hin. destruct Hin as [_ Hin]. destruct (vt_queue t); [injection Hin as <-; apply (f_queue CD)|discriminate]. }
+      apply in_shift in Hin. destruct Hin as (k0 & Hin & _). apply in_mapv in Hin. destruct Hin as (x & _ & ->). apply (f_val CD). }
+    apply mroot_inj in E; try apply Hvok; try (apply vlist_sorted, sorted_mapv; assumption).
+    unfold vlist in E.
+    assert (L3 : forall (a : list (N * bytes)) k v, In (k, v) (shift 3 a) -> 2 < k).
+    { intros a k v Hin. apply in_shift in Hin. destruct Hin as (k0 & _ & ->). lia. }
+    assert (L2 : forall (q : option bytes) (a : list (N * bytes)) k v, In (k, v) (opt 2 q ++ shift 3 a) -> 1 < k).
+    { intros q a k v Hin. apply in_app_or in Hin. destruct Hin as [Hin|Hin]; [apply in_opt in Hin; lia|apply L3 in Hin; lia]. }
+    assert (L1 : forall (s q : option bytes) (a : list (N * bytes)) k v, In (k, v) (opt 1 s ++ opt 2 q ++ shift 3 a) -> 0 < k).
+    { intros s q a k v Hin. apply in_app_or in Hin. destruct Hin as [Hin|Hin]; [apply in_opt in Hin; lia|apply L2 in Hin; lia]. }
+    apply opt_app_inj in E; [|apply L1|apply L1]. destruct E as [Ei E].
+    apply opt_app_inj in E; [|apply L2|apply L2]. destruct E as [Es E].
+    apply opt_app_inj in E; [|apply L3|apply L3]. destruct E as [Eq E].
+    apply shift_inj in E. apply mapv_inj_in in E.
+    + destruct t1 as [i1 x1 s1 q1], t2 as [i2 x2 s2 q2]. cbn in *. subst. f_equal.
+      * destruct x1, x2; cbn in Ei; try discriminate; [|reflexivity]. injection Ei as Ei.
+        pose proof (c_idx CD l) as A. rewrite Ei, (c_idx CD) in A. injection A as ->. reflexivity.
+      * destruct s1, s2; cbn in Es; try discriminate; [|reflexivity]. injection Es as Es.
+        pose proof (c_stat CD s) as A. rewrite Es, (c_stat CD) in A. injection A as ->. reflexivity.
+      * destruct q1, q2; cbn in Eq; try discriminate; [|reflexivity]. injection Eq as Eq.
+        pose proof (c_queue CD l) as A. rewrite Eq, (c_queue CD) in A. injection A as ->. reflexivity.
+    + intros k x y Hx Hy Hxy. pose proof (c_val CD x) as Hrt. rewrite Hxy, (c_val CD) in Hrt.
+      pose proof (N1 k x Hx) as D1. pose proof (N2 k y Hy) as D2.
+      destruct x, y; cbn in D1, D2, Hrt. subst. injection Hrt as -> -> -> -> -> -> ->. reflexivity.
+  - (* staking trie *)
+    intros t1 t2 S1 S2 E. unfold sroot, menc in E. cbn [MptWorld root_stk enc_rec enc_prel] in E.
+    change (mroot (slist (mapv enc_rec' (st_recs t1)) (option_map enc_prel' (st_prel t1))) =
+            mroot (slist (mapv enc_rec' (st_recs t2)) (option_map enc_prel' (st_prel t2)))) in E.
+    assert (Hvok : forall t : strie, vals_ok (slist (mapv enc_rec' (st_recs t)) (option_map enc_prel' (st_prel t)))).
+    { intros t k v Hin. unfold slist in Hin. apply in_app_or in Hin. destruct Hin as [Hin|Hin].
+      { apply in_opt in Hin. destruct Hin as [_ Hin]. destruct (st_prel t); [injection Hin as <-; apply (f_prel CD)|discriminate]. }
+      apply in_shift in Hin. destruct Hin as (k0 & Hin & _). apply in_mapv in Hin. destruct Hin as (x & _ & ->). apply (f_rec CD). }
+    apply mroot_inj in E; try apply Hvok; try (apply slist_sorted, sorted_mapv; assumption).
+    unfold slist in E.
+    assert (L1 : forall (a : list (N * bytes)) k v, In (k, v) (shift 1 a) -> 0 < k).
+    { intros a k v Hin. apply in_shift in Hin. destruct Hin as (k0 & _ & ->). lia. }
+    apply opt_app_inj in E; [|apply L1|apply L1]. destruct E as [Ep E]. apply shift_inj in E.
+    apply (mapv_inj enc_rec') in E.
+    + destruct t1 as [r1 p1], t2 as [r2 p2]. cbn in *. subst. f_equal.
+      destruct p1, p2; cbn in Ep; try discriminate; [|reflexivity]. injection Ep as Ep.
+      pose proof (c_prel CD l) as A. rewrite Ep, (c_prel CD) in A. injection A as ->. reflexivity.
+    + intros x y Hxy. pose proof (c_rec CD x) as A. rewrite Hxy, (c_rec CD) in A. injection A as ->. reflexivity.
 Qed.
 
 (* the root of a content within the key universe IS the Merkle-Patricia root of C13 ... *)
